@@ -69,6 +69,11 @@ type c12Dag struct {
 	// children early, and "the bytes preceding the span" becomes "a correct
 	// prefix no longer than that".
 	sized bool
+	// mayRefuse: the DAG is decodable but irregular (child shards of another
+	// fanout than their parent); the library refuses it on some routes
+	// (ErrShardWidthMismatch in the iterator). A refusal is not a violation;
+	// fetching entry blocks or succeeding with unloaded shards still is.
+	mayRefuse bool
 	// optionalFail: positions of withheld empty-span blocks (per static run)
 	optionalFail []int64
 	c            c05Case
@@ -112,6 +117,19 @@ func c12Build(c c05Case) (*c12Dag, error) {
 		if err != nil {
 			return nil, err
 		}
+		d.hm, err = model.Hamt(d.s, d.root)
+		if err != nil {
+			return nil, err
+		}
+		d.blocks = store.FirstReads(d.hm.Shards())
+	case "handshard":
+		spec, ok := gen.HandShards()[c.Hand]
+		if !ok {
+			return nil, fmt.Errorf("unknown hand-written shard DAG %q", c.Hand)
+		}
+		d.s = store.New()
+		d.mayRefuse = strings.HasPrefix(c.Hand, "mixed")
+		d.root, _ = spec.Build(d.s)
 		d.hm, err = model.Hamt(d.s, d.root)
 		if err != nil {
 			return nil, err
